@@ -12,8 +12,10 @@ use serde_json::{Value, json};
 pub struct C01;
 
 pub fn gen_enc(rng: &mut Rng) -> EncVariant {
-    match rng.below(14) {
+    match rng.below(17) {
         0..=5 => EncVariant::Honest,
+        14 => EncVariant::TokenPrefix { len: *rng.pick(&[0usize, 1, 8, 16, 31]) },
+        15 => EncVariant::TokenExtended { extra: *rng.pick(&[1usize, 16, 32]) },
         6 => EncVariant::WrongToken,
         7 => EncVariant::StaleToken { token: rng.bytes(32) },
         8 => EncVariant::OtherKey,
@@ -26,7 +28,12 @@ pub fn gen_enc(rng: &mut Rng) -> EncVariant {
 }
 
 pub fn is_honest(v: &EncVariant) -> bool {
-    matches!(v, EncVariant::Honest | EncVariant::SecretLen { .. })
+    match v {
+        EncVariant::Honest | EncVariant::SecretLen { .. } => true,
+        EncVariant::TokenExtended { extra } => *extra == 0,
+        EncVariant::TokenPrefix { len } => *len >= 32,
+        _ => false,
+    }
 }
 
 fn generate(rng: &mut Rng) -> ConnScenario {
@@ -52,6 +59,11 @@ fn generate(rng: &mut Rng) -> ConnScenario {
             2 => (secret.clone().unwrap_or_default(), client_addr.clone(), wall.base_s - 7 * 3600), // expired
             _ => (secret.clone().unwrap_or_default(), client_addr.clone(), wall.base_s - rng.below(3600)),
         };
+        match rng.below(6) {
+            0 => client.uuid = format!("{:032x}", id.uuid),
+            1 => client.name = id.name.clone(),
+            _ => {}
+        }
         let body = cookie_json(ts, &addr, &id, Some("old-target"));
         client.auth_cookie = Some(signed_cookie(&sec, &body));
     }
@@ -214,7 +226,7 @@ impl Check for C01 {
         "exploration"
     }
     fn rule_text(&self) -> String {
-        "random connections: intent status/login/transfer, secret or none, claimed identity, authentication verdict (claim, other name, other UUID, other properties, error, with latency up to 20 s), Encryption Response variant (honest; wrong, stale, plaintext or zero token; other key; garbage of 6 lengths; secret of 0/15/17/32 bytes), optional cookie that is valid or invalid in one respect, 0-2 targets. Non-trivial = the run reached the Encryption Response with a dishonest variant, a failing or identity-changing authentication verdict, or a cookie; distinct = distinct event-order trace hash.".into()
+        "random connections: intent status/login/transfer, secret or none, claimed identity, authentication verdict (claim, other name, other UUID, other properties, error, with latency up to 20 s), Encryption Response variant (honest; wrong, stale, plaintext, zero, truncated (0-31 byte prefix) or extended token; other key; garbage of 6 lengths; secret of 0/15/17/32 bytes), optional cookie that is valid or invalid in one respect, 0-2 targets. Non-trivial = the run reached the Encryption Response with a dishonest variant, a failing or identity-changing authentication verdict, or a cookie; distinct = distinct event-order trace hash.".into()
     }
     fn assumptions(&self) -> Vec<String> {
         vec![
@@ -255,7 +267,12 @@ impl Check for C01 {
         let class = format!("{:?}|{:?}|{}|{}", std::mem::discriminant(&sc.client.enc), std::mem::discriminant(&sc.services.auth.default.res), sc.client.auth_cookie.is_some(), sc.client.intent);
         let mut h = crate::rng::Fnv(rep.trace_hash);
         h.write_str(&class);
-        if let crate::client::EncVariant::Garbage { len } | crate::client::EncVariant::SecretLen { len } | crate::client::EncVariant::TokenZero { len } = &sc.client.enc {
+        if let crate::client::EncVariant::Garbage { len }
+        | crate::client::EncVariant::SecretLen { len }
+        | crate::client::EncVariant::TokenZero { len }
+        | crate::client::EncVariant::TokenPrefix { len }
+        | crate::client::EncVariant::TokenExtended { extra: len } = &sc.client.enc
+        {
             h.write_u64(*len as u64);
         }
         rep.trace_hash = h.0;
